@@ -3,7 +3,7 @@ import GoRes.Model.Basic
 
 A line is a list of fields separated by single spaces.  A field is a byte
 string, percent-encoded: every byte outside 0x21..0x7e, and `%` itself, is
-written `%XX` (uppercase hex); the empty string is written `%_`. -/
+written `%XX` (uppercase hex; also the separators `, ; : = @ |` used inside outcomes); the empty string is written `%_`. -/
 namespace GoRes.Wire
 
 def hexDigit (n : Nat) : Char :=
@@ -19,7 +19,7 @@ def unhex (c : Char) : Option Nat :=
 def encField (s : Str) : String :=
   if s.isEmpty then "%_" else
   String.ofList (s.flatMap fun b =>
-    if b < 33 ∨ b > 126 ∨ b = 37 then ['%', hexDigit (b / 16), hexDigit (b % 16)]
+    if b < 33 ∨ b > 126 ∨ b = 37 ∨ b = 44 ∨ b = 59 ∨ b = 58 ∨ b = 61 ∨ b = 64 ∨ b = 124 then ['%', hexDigit (b / 16), hexDigit (b % 16)]
     else [Char.ofNat b])
 
 partial def decChars : List Char → Option Str
